@@ -40,14 +40,20 @@ CHECK_DEADLOCK FALSE
     if not cases or not mc:
         raise Inconclusive("TLC generated no cases")
     msgcases = json.loads(mc[0].strip()[1:-1].replace('\\"', '"'))
-    return res, cases, msgcases
+    kc = ctx.tlc_lines(res, "KEYSIGCASES")
+    if not kc:
+        raise Inconclusive("TLC generated no key x signature cases")
+    keycases = json.loads(kc[0].strip()[1:-1].replace('\\"', '"'))
+    return res, cases, msgcases, keycases
 
 
 def run(ctx):
     quick = ctx.quick()
     # 1. design level: uniqueness in the generic group model for the whole class lattice, pairing laws
     ref = ctx.tlc("BlsVerify", cfg="BlsVerify.cfg", coverage=not quick)
-    gen, cases, msgcases = gen_cases(ctx, quick)
+    gen, cases, msgcases, keycases = gen_cases(ctx, quick)
+    ksp = os.path.join(ctx.scratch, "keycases.json")
+    json.dump(keycases, open(ksp, "w"))
     msp = os.path.join(ctx.scratch, "msgcases.json")
     json.dump(msgcases, open(msp, "w"))
     drv = ctx.build("c14")
@@ -67,6 +73,9 @@ def run(ctx):
                 "--sweep", str(250 if quick else 1500),
                 # related message pairs: every process meets each pair in one order only (even shards: m1 first)
                 "--msgscript", msp, "--msgorder", "fwd" if k % 2 == 0 else "rev", "--others", str(1300 if quick else 2500)]
+        if k < 4:
+            # malformed key x degenerate signature x parsing entry points; simultaneous signers / verifiers
+            argv += ["--keyscript", ksp, "--concurrent", str(20 if quick else 60)]
         if k == 0:
             argv += ["--extras", "--bigpairs", str(4 if quick else 12)]
         argvs.append(argv)
@@ -79,7 +88,7 @@ def run(ctx):
             raise Inconclusive("driver printed no summary")
         for key, v in re.findall(r"(\w+)=(\d+)", line[-1]):
             counts[key] = counts.get(key, 0) + int(v)
-    for need in ("verify", "g1parse", "roundtrip", "pair", "pairbig", "gteq", "msgpair", "history"):
+    for need in ("verify", "g1parse", "roundtrip", "pair", "pairbig", "gteq", "msgpair", "history", "keysig", "keySigAccepted", "concurrent"):
         if counts.get(need, 0) == 0:
             raise Inconclusive("vacuity: no %s events were produced" % need)
     total, accepted, classes = 0, 0, set()
@@ -116,6 +125,9 @@ def run(ctx):
         "case_classes": len(classes),
         "accepted_by_real_code": accepted,
         "not_applicable_instantiations": counts.get("notApplicable", 0),
+        "key_x_signature_cases": len(keycases),
+        "key_x_signature_evaluations": counts["keysig"],
+        "concurrent_sign_verify_runs": counts["concurrent"],
         "related_message_pairs": len(msgcases) // 2,
         "related_message_cross_tables": counts["msgpair"],
         "history_independence_observations": counts["history"],
@@ -136,6 +148,6 @@ def run(ctx):
     finish(ctx, "exploration", coverage, [
         "generic group model: algebraic relations other than sums/negations/multiples of observed signatures are not expressible",
         "a non-canonical encoding (trailing bytes, non-reduced coordinate) of the SAME public key is recorded but not judged: the statement decides only values presented as signatures",
-        "identity public key with identity signature is outside the statement (it is the signature of secret key 0)",
+        "the well-formed identity public key (128 zero bytes, secret key 0) with the identity signature (its signature) is not judged; every malformed key encoding with every signature class, the identity included, is",
         "non-reduced coordinate cases apply only when coordinate + p < 2^256 (about 78% of coordinates)",
     ])
